@@ -355,9 +355,9 @@ theorem draw_inv {E : Env} {g : Int} {now : Int} {s s' : St} {owner : Acct} {ty 
   rename_i id c0 hf
   split at h
   · cases h
+  rename_i cp hv
   split at h
   · cases h
-  rename_i cp hcp
   split at h
   · cases h
   split at h
